@@ -53,11 +53,21 @@ func vpPGraph(anc, base *yaml.Node, baseKey, baseVal string) (*yaml.Node, []stri
 	vpAssume(k1 != k2)
 	m.Content = append(m.Content, vpYStr(k2), vpYStr(v2))
 	keys, vals = []string{k1, k2}, []string{v1, v2}
-	if vpBool() { // merged keys come after the explicit ones here, and explicit keys win
+	switch vpInt(0, 3) { // merged keys come after the explicit ones here, and explicit keys win
+	case 1:
 		m.Content = append(m.Content, &yaml.Node{Kind: yaml.ScalarNode, Tag: "!!merge", Value: "<<"}, vpYAlias(base))
 		if baseKey != k1 && baseKey != k2 {
 			keys, vals = append(keys, baseKey), append(vals, baseVal)
 		}
+	case 2: // a merge sequence that also names the mapping itself: a merge cycle adds nothing and is no error
+		m.Anchor = "s"
+		m.Content = append(m.Content, &yaml.Node{Kind: yaml.ScalarNode, Tag: "!!merge", Value: "<<"}, vpYSeq(vpYAlias(base), vpYAlias(m)))
+		if baseKey != k1 && baseKey != k2 {
+			keys, vals = append(keys, baseKey), append(vals, baseVal)
+		}
+	case 3: // the mapping merges itself
+		m.Anchor = "s"
+		m.Content = append(m.Content, &yaml.Node{Kind: yaml.ScalarNode, Tag: "!!merge", Value: "<<"}, vpYAlias(m))
 	}
 	return m, keys, vals
 }
